@@ -625,6 +625,39 @@ class Engine:
             self.assumptions_used.add("len(x) <= 2**63 - 1 for every container (Py_ssize_t)")
         return out
 
+    def seq_facts(self, terms, seen):
+        """`xs contains xs[i]` for an index in range: true in the theory of sequences, but the sequence
+        solver does not find it unprompted (instantiated only where such a membership test occurs)"""
+        out = []
+        stack = list(terms)
+        while stack:
+            t = stack.pop()
+            tid = t.get_id()
+            if tid in seen:
+                continue
+            seen.add(tid)
+            if not z3.is_app(t):
+                continue
+            if t.decl().kind() == z3.Z3_OP_SEQ_CONTAINS and z3.is_app(t.arg(1)) \
+                    and t.arg(1).decl().kind() == z3.Z3_OP_SEQ_UNIT and z3.is_app(t.arg(1).arg(0)) \
+                    and t.arg(1).arg(0).decl().kind() == z3.Z3_OP_SEQ_NTH and t.arg(1).arg(0).arg(0).eq(t.arg(0)):
+                i = t.arg(1).arg(0).arg(1)
+                out.append(z3.Implies(z3.And(i >= 0, i < z3.Length(t.arg(0))), t))
+            elif t.decl().kind() == z3.Z3_OP_SEQ_CONTAINS and z3.is_app(t.arg(1)) \
+                    and t.arg(1).decl().kind() == z3.Z3_OP_SEQ_UNIT and z3.is_app(t.arg(1).arg(0)) \
+                    and t.arg(1).arg(0).decl().kind() == z3.Z3_OP_SEQ_NTH:
+                # the same through the two spellings of "the items of x": the accessor items(x) of a list value
+                # and the total function py.items(x)
+                seq_a, nth = t.arg(0), t.arg(1).arg(0)
+                seq_b, i = nth.arg(0), nth.arg(1)
+                if z3.is_app(seq_a) and z3.is_app(seq_b) and seq_b.decl().eq(S.PYITEMS) and seq_a.num_args() == 1 \
+                        and seq_a.arg(0).eq(seq_b.arg(0)) and seq_a.decl().eq(Py.items):
+                    x = seq_a.arg(0)
+                    out.append(z3.Implies(z3.And(Py.is_list(x), i >= 0, i < z3.Length(seq_a)),
+                                          z3.And(seq_b == seq_a, t)))
+            stack.extend(t.children())
+        return out
+
     def data_facts(self, terms, seen=None):
         """Data-model assumption (listed in the evidence): the module sentinels (`X = object()`) are never
         *elements* of containers -- user data cannot contain them and the code never stores one (checked:
@@ -840,6 +873,8 @@ class Engine:
         t0 = time.time()
         base = list(ob.hyps) + [z3.Not(ob.goal)]
         base += self.length_bounds(base)
+        seq_seen = set()
+        base += self.seq_facts(base, seq_seen)
         data_seen = set()
         # the sentinel facts matter only where something tells sentinels from data (`x is NoValue`, is_data(x))
         need_data = self._mentions_sentinel_test(base)
@@ -884,7 +919,7 @@ class Engine:
             s = z3.Solver()
             # with too few unfoldings the query is satisfiable but models are hard to find:
             # spend little time on the early rounds, the full budget on the last one
-            budget = timeout_ms if depth == fuel else min(timeout_ms, [1000, 2500, 5000, 8000][min(depth, 3)])
+            budget = timeout_ms if (depth == fuel or not frontier) else min(timeout_ms, [1000, 2500, 5000, 8000][min(depth, 3)])
             s.set("timeout", budget)
             for f in base:
                 s.add(f)
@@ -934,6 +969,7 @@ class Engine:
                 break
             if need_data:
                 new += self.data_facts(new, data_seen)
+            new += self.seq_facts(new, seq_seen)
             defs.extend(new)
             for d in new:
                 ctx.add(d)
